@@ -389,6 +389,11 @@ LOOP:
 						if pi > 0 {
 							sp.markVals("U14") // whether the declared letters before the stop take effect is not stated
 						}
+						if i > tokIdx {
+							// an earlier letter of the bundle has already taken the following token(s) as its value: "the stop
+							// token and everything after it verbatim" and "a value is consumed" cannot both hold
+							sp.mark("U14")
+						}
 						ex.StopIdx = tokIdx
 						ex.Remaining = append(ex.Remaining, argv[tokIdx:]...)
 						ex.RemainingAll = append(ex.RemainingAll, argv[tokIdx:]...)
